@@ -29,11 +29,14 @@ Print Assumptions duplicate_is_noop.
 
 (* Full statement: a real change invokes every untimed handler (and event post) registered for the new state
    exactly once, at the time of the change, in registration order, and nothing else.
-   Proved for callbacks that only REGISTER handlers while the change is dispatched (adds_only).  A callback
+   Proved for an unmuted switch without ignore window (no_rcb: the `_post_events` handler is an ordinary entry;
+   with a window the event posts follow recycle_semantics_* below) and for callbacks that only REGISTER handlers
+   while the change is dispatched (adds_only).  A callback
    that REMOVES a not-yet-invoked handler during the dispatch prevents its invocation (entry.cancelled); that
    behaviour is covered by removed_never_fires (no guard) and by the correspondence runs, not by this theorem. *)
 Theorem untimed_once_per_change_partial :
-  forall A now s lg val, adds_only A -> logical_of (inv s) lg val <> sst s ->
+  forall A now s lg val, adds_only A -> logical_of (inv s) lg val <> sst s -> mutes (dv s) = [] ->
+    no_rcb (reg_of (rg s) (logical_of (inv s) lg val)) ->
     snd (report A now s lg val)
     = untimed_fires now (logical_of (inv s) lg val) (reg_of (rg s) (logical_of (inv s) lg val)).
 Proof. exact untimed_once_l. Qed.
@@ -48,15 +51,16 @@ Theorem single_wakeup_never_crashes :
 Proof. exact exec_WN. Qed.
 Print Assumptions single_wakeup_never_crashes.
 
-Theorem initial_state_single_wakeup : forall nc st h lc0 a b, W (tm (init_state nc st h lc0 a b)).
+Theorem initial_state_single_wakeup : forall nc st h lc0 win a b, W (tm (init_state nc st h lc0 win a b)).
 Proof. exact init_W. Qed.
 Print Assumptions initial_state_single_wakeup.
 
 (* A removed handler never fires: after remove_switch_handler(cb,st,ms), in any state (including with duplicate
    registrations and pending timed entries — fix 2) and for any later history and any callback scripts that do not
-   register that same (cb,st,ms) again, no invocation of (cb,st,ms) occurs. *)
+   register that same (cb,st,ms) again, no invocation of (cb,st,ms) occurs.  (is_ev cb = false: cb is a user
+   callback, not one of the event posts of the Switch device, which the ignore-window timer issues by itself.) *)
 Theorem removed_never_fires :
-  forall A cb st ms, acts_ok A cb st ms -> forall s evs, Forall (ev_ok cb st ms) evs ->
+  forall A cb st ms, acts_ok A cb st ms -> is_ev cb = false -> forall s evs, Forall (ev_ok cb st ms) evs ->
     forall t, ~ In (Fire t cb st ms) (snd (exec A (rem s cb st ms) evs)).
 Proof. exact removed_never_fires_l. Qed.
 Print Assumptions removed_never_fires.
@@ -77,7 +81,7 @@ Print Assumptions removed_never_fires.
    minimum remaining deadline, and the induction composing these over histories.  That part is validated on
    every run by the correspondence (3000 timelines, wake-up times compared) and by the oracle. *)
 Theorem timed_iff_held_partial_change :
-  forall A now s lg val, adds_only A -> logical_of (inv s) lg val <> sst s ->
+  forall A now s lg val, adds_only A -> logical_of (inv s) lg val <> sst s -> mutes (dv s) = [] ->
     let v := logical_of (inv s) lg val in
     let s' := fst (report A now s lg val) in
     forall e, In e (reg_of (rg s) v) -> snd e <> 0 -> has s' (now + us (snd e)) (snd (fst e), v, snd e).
@@ -100,3 +104,65 @@ Print Assumptions timed_iff_held_partial_other_state.
 Theorem timed_iff_held_partial_cancel : forall T, timed (cancel T) = None.
 Proof. exact change_cancels_l. Qed.
 Print Assumptions timed_iff_held_partial_cancel.
+
+(* Mute (Switch.mute/unmute): a real change on a MUTED switch still updates state and last_change, and still
+   drops every pending hold of the state it left (the deadline table is gone), but invokes no handler and posts
+   no event, and leaves the registries alone. *)
+Theorem muted_change_cancels_and_invokes_nothing :
+  forall A now s lg val, mutes (dv s) <> [] -> logical_of (inv s) lg val <> sst s ->
+    let s' := fst (report A now s lg val) in
+    snd (report A now s lg val) = [] /\ sst s' = logical_of (inv s) lg val /\ lc s' = now /\
+    timed (tm s') = None /\ rg s' = rg s.
+Proof. exact muted_change_l. Qed.
+Print Assumptions muted_change_cancels_and_invokes_nothing.
+
+(* timed handlers are cancelled on every real change, muted or not: in every reachable state every pending
+   timed entry is for the state the switch is in (TS), and every invocation logged by any step (untimed, timed,
+   event post, window-end post) is for the state the switch is in after that step — for arbitrary re-entrant
+   callbacks, mutes, removals and ignore windows.  So a hold handler never fires once the switch has left its
+   state during the interval. *)
+Theorem fires_only_in_current_state :
+  forall A s te, TS s ->
+    TS (fst (step A s te)) /\ fires_in (sst (fst (step A s te))) (snd (step A s te)).
+Proof. exact step_TS_l. Qed.
+Print Assumptions fires_only_in_current_state.
+
+Theorem pending_entries_in_current_state : forall A evs s, TS s -> TS (fst (exec A s evs)).
+Proof. exact exec_TS_l. Qed.
+Print Assumptions pending_entries_in_current_state.
+
+Theorem initial_state_no_pending : forall nc st h lc0 win a b, TS (init_state nc st h lc0 win a b).
+Proof. exact init_TS. Qed.
+Print Assumptions initial_state_no_pending.
+
+(* recycle_semantics (ignore_window_ms > 0; callbacks 1010/1011 are _post_events_with_recycle(state=0/1), the
+   posts are observed as 1000/1001 = <switch>_inactive/_active):
+   _open   : no window open: the change is posted and a window is opened until last_change + window;
+   _inside : window open: nothing is posted and nothing changes (at most one post per window);
+   _end    : the window-end timer closes the window and posts the CURRENT logical state iff it differs from the
+             posted one (compared with the logical state, also for NC switches), touching nothing else;
+   _only_closed_by_its_timer : no other step (reports, muted or not, registrations, removals, wake-ups,
+             re-entrant callbacks) closes or moves an open window. *)
+Theorem recycle_semantics_open :
+  forall A now s cb v, is_rcb cb = true -> rc (dv s) = None ->
+    invoke A now s cb v = (set_rc s (Some (lc s + rwin (dv s), v)), [Fire now (1000 + b2z v) v 0]).
+Proof. exact recycle_open_l. Qed.
+Print Assumptions recycle_semantics_open.
+
+Theorem recycle_semantics_inside :
+  forall A now s cb v w, is_rcb cb = true -> rc (dv s) = Some w -> invoke A now s cb v = (s, []).
+Proof. exact recycle_inside_l. Qed.
+Print Assumptions recycle_semantics_inside.
+
+Theorem recycle_semantics_end :
+  forall now s t0 v0, rc (dv s) = Some (t0, v0) ->
+    let s' := fst (recycle_passed now s) in
+    rc (dv s') = None /\ sst s' = sst s /\ tm s' = tm s /\ rg s' = rg s /\
+    snd (recycle_passed now s) = if Bool.eqb (sst s) v0 then [] else [Fire now (1000 + b2z (sst s)) (sst s) 0].
+Proof. exact recycle_end_l. Qed.
+Print Assumptions recycle_semantics_end.
+
+Theorem recycle_semantics_only_closed_by_its_timer :
+  forall A s te w, rc (dv s) = Some w -> snd te <> ERecycle -> rc (dv (fst (step A s te))) = Some w.
+Proof. exact window_only_closed_by_its_timer_l. Qed.
+Print Assumptions recycle_semantics_only_closed_by_its_timer.
